@@ -133,9 +133,10 @@ mircheck("C08", "on_run is an idle handler", SYMEX,
           m("kill_preempts", "on_run suspended when the kill arrives")],
          "see scenarios", "on_run futures with more than 1 await point", "every poll of the scripted on_run future records the mailbox length and kill flag at that instant")
 mircheck("C09", "Mailbox capacity is a hard bound with waiting back-pressure", SYMEX,
-         [m("senders", B_SENDERS, "channel created with the requested capacity; occupancy <= capacity; nobody waits while a slot is free; no Err(Send) on a live actor"),
-          m("drop_immediately", "capacity 1-2, 3 senders' messages")],
-         "capacities 1-3", "the process-wide default (set_default_mailbox_capacity / spawn) is checked by the function-level group", "occupancy statistics of the model channel + pending operations at quiescence")
+         [m("senders", B_SENDERS, "channel created with the requested capacity; occupancy <= capacity (stop marker included); nobody waits while a slot is free; no Err(Send) on a live actor"),
+          m("drop_immediately", "capacity 1-2, 3 senders' messages"),
+          m("capacity_config", "spawn_with_mailbox_capacity with a SYMBOLIC 64-bit capacity (data flow into mpsc::channel decided by z3 for every value); capacity 0; spawn() default 32; set_default_mailbox_capacity(0 / first in {1,2,3,40} / second in {1,7} / 0) then spawn()", "requested buffer == argument for all values; terminate channel == 1; 0 rejected before any channel exists; configured-once semantics")],
+         "capacities 1-3 for occupancy; every 64-bit value for the data flow", "the OnceLock under real thread concurrency", "occupancy statistics of the model channel + pending operations at quiescence")
 mircheck("C10", "Timeouts are exact", SYMEX,
          [m("timeouts", "op in {tell_with_timeout, ask_with_timeout}; mailbox free/full/dying (kill); handler 0 or 2 await points; timeout d symbolic in [0,6] ns; up to 2 (thorough 3) clock advances, each symbolic in [0,4] ns, at any point of the schedule", "Err(Timeout) => now >= start+d (valid for all d,dt); pending at quiescence => now < start+d; the Duration given to the timer is the caller's")],
          "see scenario", "blocking variants with timeout (C17); the real timer wheel", "the deadline inequalities are z3 validity queries over the symbolic timeout and clock increments")
@@ -148,3 +149,27 @@ mircheck("C13", "Exactly one dead letter per failed delivery, none per success",
           m("senders", B_SENDERS)],
          "see scenarios", "the message type name inside the record (checked by the Kani harness c13); blocking variants (C17); the counter under real thread concurrency",
          "calls of the real dead_letter::record are observed with their arguments")
+
+mircheck("C11", "Identity is unique and stable; is_alive / upgrade tell the truth", SYMEX,
+         [m("identity", "3 actors; actor A ended by stop / kill / last drop / on_run Err / handler panic at any moment; a sampler task calling identity() through 10 kinds of handle (clone, weak, weak clone, upgraded, Box<dyn TellHandler/AskHandler/ActorControl> and their as_control / downgrade), is_alive(), ActorWeak::is_alive(), upgrade() and sends at arbitrary points", "same Identity everywhere; is_alive true before any cause, false after the JoinHandle resolved; upgrade/weak is_alive <=> strong senders exist; sends after the end fail"),
+          m("id_alloc", "the atomic operations one real spawn performs on the id counter, recorded symbolically; 2 threads x every interleaving of those operations x symbolic initial counter", "z3 refutes id1 == id2")],
+         "see scenarios", "more than 2 concurrent spawners; counter wrap-around after 2^63 spawns", "trace monitors + a z3 interleaving argument over the recorded atomic operations")
+mircheck("C14", "Deadlock detection is complete for sequential ask cycles", SYMEX,
+         [m("deadlock_cycles", "self-ask from a handler / from on_run, 2-cycle (ask and ask_with_timeout), 2-cycle closed from on_stop, 3-cycle; every creation order of the edges the scheduler allows", "the closing ask panics with 'Deadlock detected'; no hook is left waiting at quiescence; every client op completes; graph empty"),
+          m("has_path_fn", "every functional graph over 3 (thorough 4) keys: presence and target of each key symbolic, from/to symbolic", "has_path == bounded reachability, as a z3 validity query on every loop path")],
+         "cycle length <= 3; graph walk over <= 4 keys", "cycles through type-erased ask (C16 covers the forwarding); real threads", "the feature's real code (task-local scope, mutex, HashMap walk, WaitForGuard) is interpreted; the panic follows the real unwind edges",
+         feats=("deadlock-detection",))
+mircheck("C15", "Deadlock detection is sound and leaves no residue", SYMEX,
+         [m("deadlock_sound", "5 acyclic-in-time patterns over a cyclic topology: A asks B then B asks A; ask that times out then reverse ask; callee panics then reverse ask; fan-out; non-actor callers only; all schedules", "no deadlock panic; once every ask has finished the wait-for graph (read from the crate's static) is empty"),
+          m("deadlock_cycles", "real cycles: after the deliberate panic and its unwinding the graph is empty")],
+         "2 actors, <= 3 asks", "cancellation by dropping an ask future other than through timeout/death", "the wait-for graph is read directly from the interpreted static WAIT_FOR (no hook in /repo needed)",
+         feats=("deadlock-detection",))
+mircheck("C16", "Type-erased handles are transparent", SYMEX,
+         [m("erased", "4 op sequences (tell+ask / stop / kill / timeouts) x every operation routed through one of {direct, From<&ActorRef>, From<ActorRef>, clone_boxed, downgrade+upgrade} x control ops through ActorControl handles; all schedules", "the C01/C02/C03/C04/C13 monitors hold through erased handles; timers get the caller's durations; stop/kill keep their meaning; temporaries do not leak references"),
+          m("erased_lifetime", "reference converted by value into Box<dyn TellHandler|AskHandler|ActorControl>, kept or downgraded to the weak trait object", "strong trait object keeps the actor alive and serving, weak one does not"),
+          m("identity", "identity through erased handles")],
+         "see scenarios", "blocking_* forwarders (C17); Debug output", "the forwarding impls are executed from MIR through dynamic dispatch on the runtime type")
+mircheck("C20", "Metrics count what happened", SYMEX,
+         [m("metrics_scn", "actor kept / stopped / killed; 3 messages, handler with one await; <= 2 clock advances of symbolic length <= 5 ns at any point", "message_count = handler entries (stop marker, leftovers excluded); avg <= max; snapshot = accessors; max >= any advance that happened inside a completed handler (z3); same values through a weak-upgraded handle")],
+         "see scenario", "wall-clock time (virtual clock); concurrent readers on real threads", "the real MetricsCollector / MessageProcessingGuard code is interpreted; Instant is the virtual clock",
+         feats=("metrics",))
